@@ -332,7 +332,7 @@ def print_func_op_like(
 
     # Non-variadic declaration
     if not body.blocks and not is_variadic:
-        if print_empty_outputs:
+        if print_empty_outputs and not res_attrs:
             printer.print_attribute(function_type)
         else:
             printer.print_string("(")
